@@ -174,3 +174,34 @@ func verifLegacyV(sig string) string {
 	b[64] += 27
 	return hex.EncodeToString(b)
 }
+
+// VerifC04Spellings: clients sign with the typed signers (NodeRequest.Sign for a node id, as the agent's pool
+// client does; AddressRequest.Sign for a wallet), and may spell the identity in any form that names their key:
+// a node id bare, in upper case or with a 0x prefix; a wallet address with 0x or 0X and hex digits in any case.
+// The dispatching Verify accepts every such correctly signed request, and refuses it under another spelling's
+// signature-covered string.
+func VerifC04Spellings() {
+	node, wallet := verifapi.NodeID(0), verifapi.Wallet(0)
+	style := verifapi.Choose("identitystyle", 2)
+	nonce := verifapi.Int64("nonce")
+	arg := verifArgs{Kind: "geth", Num: verifapi.Int64("num")}
+	var id, sig string
+	var err error
+	if style == 0 {
+		id = []string{node, strings.ToUpper(node), "0x" + node}[verifapi.Choose("spelling", 3)] // ("0X" is not a prefix the node-id parser knows)
+		sig, err = NodeRequest{Method: "vipnode_update", NodeID: id, Nonce: nonce, ExtraArgs: []interface{}{arg}}.Sign(verifKey(node))
+	} else {
+		id = []string{wallet, "0X" + wallet[2:], "0x" + strings.ToUpper(wallet[2:]), "0x" + strings.ToLower(wallet[2:])}[verifapi.Choose("spelling", 4)]
+		sig, err = AddressRequest{Method: "vipnode_update", Address: id, Nonce: nonce, ExtraArgs: []interface{}{arg}}.Sign(verifKey(wallet))
+	}
+	if err != nil {
+		verifapi.Unreachable("c04.spellings.sign-error")
+		return
+	}
+	verifapi.Reach("c04.spellings")
+	e := Verify(sig, "vipnode_update", id, nonce, arg)
+	if e != nil {
+		verifapi.Observe("verify-error", e.Error())
+	}
+	verifapi.Assert(e == nil, "c04.spellings.correctly-signed-request-accepted")
+}
